@@ -43,9 +43,22 @@ def discharge(pc, goal, timeout_ms=10000, use_cvc5=True, want_model=True):
     s = z3.Solver()
     s.set("timeout", timeout_ms)
     from .slicing import relevant
-    s.add(*relevant(pc, [goal]))
+    rel = relevant(pc, [goal])
+    s.add(*rel)
     s.add(z3.Not(goal))
     r = s.check()
+    if r == z3.unknown and any(_has_quant(x) for x in rel + [goal]):
+        # universally quantified hypotheses (ring invariants): retry with pure E-matching, which is what the
+        # ghost-index encoding is designed for (model-based instantiation often diverges on it)
+        s2 = z3.Solver()
+        s2.set("timeout", timeout_ms)
+        s2.set("auto_config", False)
+        s2.set("smt.mbqi", False)
+        s2.add(*rel)
+        s2.add(z3.Not(goal))
+        r2 = s2.check()
+        if r2 == z3.unsat:
+            return "proved", "z3-ematching", time.time() - t0, None, None
     dt = time.time() - t0
     if r == z3.unsat:
         return "proved", "z3", dt, None, None
@@ -60,6 +73,19 @@ def discharge(pc, goal, timeout_ms=10000, use_cvc5=True, want_model=True):
             return "refuted", "cvc5", dt + dt2, None, smt2
         dt += dt2
     return "unknown", "z3+cvc5", dt, None, smt2
+
+
+def _has_quant(t):
+    stack, seen = [t], set()
+    while stack:
+        x = stack.pop()
+        if x.get_id() in seen:
+            continue
+        seen.add(x.get_id())
+        if z3.is_quantifier(x):
+            return True
+        stack.extend(x.children())
+    return False
 
 
 def run_cvc5(smt2: str, timeout_ms: int):
